@@ -399,7 +399,13 @@ func (e *Env) selector(n *ast.SelectorExpr) Val {
 					if c, ok := obj.(*types.Const); ok {
 						return Val{K: VConst, T: c.Type(), C: c.Val()}
 					}
-					e.fail("%s.%s is not a constant", id.Name, n.Sel.Name)
+					if v, ok := obj.(*types.Var); ok {
+						// package-level variable of another package: a global cell
+						g := "global." + sanitize(p.Name()+"."+n.Sel.Name)
+						t.declare(g, "Int")
+						return e.loadPtr(scalar(types.NewPointer(v.Type()), g), v.Type())
+					}
+					e.fail("%s.%s is not a constant or variable", id.Name, n.Sel.Name)
 				}
 			}
 		}
